@@ -62,7 +62,7 @@ def gen_cfg(rng, tier: str, big: bool = False, backing: str | None = "maybe") ->
         "meta_alloc": rng.choice(["seq", "rev", "perm"]),
         "data_far": rng.choice([0, 0, 0, 0, 1 << 32, 1 << 40, (1 << 32) + (1 << 20)]) if not big else rng.choice([1 << 32, 1 << 40, 1 << 44]),
         "l2_far": rng.choice([0, 0, 0, 1 << 32, 1 << 41]),
-        "comp_far": rng.choice([0, 0, 0, 1 << 32, 1 << 42]), "tight_eof": rng.random() < 0.3, "data_file_named": rng.random() < 0.65,
+        "comp_far": rng.choice([0, 0, 0, 1 << 32, 1 << 42]), "tight_eof": rng.random() < 0.3, "data_file_named": rng.random() < 0.65, "copied_clear": rng.random() < 0.3,
         "comp_level": rng.choice([1, 6, 9]), "comp_pack": rng.choice(["tight", "sector", "odd"]),
         "l1_extra": rng.choice([0, 0, 1, 5]),
         "snap_far": rng.choice([0, 0, 0, 1 << 32, 1 << 42]),
@@ -274,7 +274,7 @@ def render(cfg: dict, roots: list[Root], name: str = "disk.qcow2") -> Image:
         for (r2, t), p in l2_pos.items():
             if r2 != ri:
                 continue
-            l1[t] = p | COPIED
+            l1[t] = p | (0 if (cfg.get("copied_clear") and (t + cfg["alloc_seed"]) % 2) else COPIED)
             # only units this root ever touched can have a non-zero entry: fill those, leave the rest of the table zero
             step = 2 if extl2 else 1
             words = [0] * (l2_size * step)
@@ -427,6 +427,15 @@ def _sc_state(L: Layer, sa: int, sb: int, cfg) -> str:
 
 
 def _l2_entry(cfg, L: Layer, u: int, dpos, cdesc, sub: int, ext_data: bool):
+    w0, w1 = _l2_entry_copied(cfg, L, u, dpos, cdesc, sub, ext_data)
+    if cfg.get("copied_clear") and (w0 & COPIED) and (w0 & ((1 << 56) - 512)) and (u * 2654435761 + cfg["alloc_seed"]) % 3 == 0:
+        # COPIED only says "refcount is exactly one" (a cluster shared with a snapshot has it clear); it never takes part in
+        # addressing - except at host offset 0 of an external data file, which is left alone
+        w0 &= ~COPIED
+    return w0, w1
+
+
+def _l2_entry_copied(cfg, L: Layer, u: int, dpos, cdesc, sub: int, ext_data: bool):
     if u >= L.nunits:
         return 0, 0
     st = L.ustate(u)
